@@ -486,6 +486,7 @@ OnFinal(g, e) ==
       vTasks == Chk("C02.final", -1, stuck = {})
                 \cup UNION {Chk("C03.done", id, g.T[id].ccb # "in" /\ g.T[id].ecb # "in") : id \in g.C}
                 \cup UNION {Chk("C02.ecb", id, (HasEcb(g, g.T[id]) /\ id \notin stuck) => g.T[id].ecb = "out") : id \in g.C}
+                \cup UNION {Chk("C03.ecb", id, (HasEcb(g, g.T[id]) /\ id \notin stuck) => g.T[id].ecb # "no") : id \in g.C}
                 \cup UNION {Chk("C03.ccb", id, (g.T[id].fin = "canc" /\ HasCcb(g, g.T[id]) /\ g.T[id].r # -2
                                                  /\ id \notin stuck) => g.T[id].ccb = "out") : id \in g.C}
       vUntil == UNION {Chk("C08.until", h, (g.H[h].kind = "until" /\ g.H[h].st = "begun") => ~g.closed) : h \in DOMAIN g.H}
